@@ -10,9 +10,9 @@ done
 for m in /verif/mutants/*.diff; do
   n=$(basename "$m"); prop=$(echo "$n" | cut -c1-3 | tr a-z A-Z)
   out="$(/verif/tools/scripts/run-mutant.sh "$m" "$prop" "$TIER" 2>&1)"
-  e="$(echo "$out" | grep -E '^exit=' | tail -1)"; c="$(echo "$out" | grep -E '^violation class|MUTANT-DOES|PATCH-FAILED' | head -1)"
+  e="$(echo "$out" | grep -aE '^exit=' | tail -1)"; c="$(echo "$out" | grep -aE '^violation class|MUTANT-DOES|PATCH-FAILED' | head -1)"
   echo "mutant $n $prop $e $c" >> "$LOG"
 done
 /verif/tools/scripts/run-benign.sh "$TIER" /verif/benign/*.diff >> "$LOG" 2>&1
-echo "--- not caught / alarms:"; grep -E "^(c|w)[0-9a-z-]+ .*exit=[02]|^mutant .*exit=[02]|^b[0-9].*exit=[12]" "$LOG" || echo none
+echo "--- not caught / alarms:"; grep -aE "^(c|w)[0-9a-z-]+ .*exit=[02]|^mutant .*exit=[02]|^b[0-9].*exit=[12]" "$LOG" || echo none
 echo "--- totals: $(grep -c 'exit=1' $LOG) caught, $(grep -c '^b[0-9].*exit=0' $LOG) benign ok"
